@@ -45,3 +45,25 @@ func VerifBuildCache(typ reflect.Type) map[string][]int {
 	buildCache(typ, cache, nil)
 	return cache
 }
+
+// VerifLiteral converts a literal token the way the parser does (newNumber for number, character
+// and complex constants, unquote for string literals).  kind is "num", "str" or "bad" (msg = the
+// conversion error's text).
+func VerifLiteral(typ int, text string) (kind string, isInt, isUint, isFloat, isComplex bool, i int64, u uint64, f float64, s string) {
+	t := &Template{Name: "verif", lex: lex("verif", "", false)}
+	switch itemType(typ) {
+	case itemString, itemRawString:
+		v, err := unquote(text)
+		if err != nil {
+			return "bad", false, false, false, false, 0, 0, 0, err.Error()
+		}
+		return "str", false, false, false, false, 0, 0, 0, v
+	case itemCharConstant, itemComplex, itemNumber:
+		n, err := t.newNumber(0, text, itemType(typ))
+		if err != nil {
+			return "bad", false, false, false, false, 0, 0, 0, err.Error()
+		}
+		return "num", n.IsInt, n.IsUint, n.IsFloat, n.IsComplex, n.Int64, n.Uint64, n.Float64, ""
+	}
+	return "none", false, false, false, false, 0, 0, 0, ""
+}
